@@ -129,7 +129,7 @@ def _only_called_by_allowed(P, path, depth=3, seen=None):
     if path in seen or depth < 0:
         return False
     seen.add(path)
-    callers = [c for c in P.callers_of(lambda c: c.callee == path) if not c.body.is_cleanup(c.bb)]
+    callers = [c for c in P.callers_of(lambda c: c.callee == path, as_written=True) if not c.body.is_cleanup(c.bb)]
     if not callers:
         return False
     return all(c.body.path in ALLOWED_DELETERS or _only_called_by_allowed(P, c.body.path, depth - 1, seen) for c in callers)
@@ -140,7 +140,7 @@ def own4(P, R, L):
              "section, destroy_database, and the four functions that remove a file they have just created; std::fs::remove_* only "
              "inside the fs module")
     n = 0
-    for p, b in sorted(P.bodies.items()):
+    for p, b in sorted(P.bodies_as_written.items()):     # who-may-call: the function-at-a-time view
         for c in b.calls():
             if b.is_cleanup(c.bb):
                 continue
